@@ -600,6 +600,14 @@ def scenario_partitioner(rnd, n):
         h ^= h >> 15
         return h
 
+    # the spec the proof is stated against must reproduce Kafka's own reference vectors (UtilsTest.testMurmur2):
+    # a disagreement is a defect of the specification, i.e. a checker failure, not a violation of afkak
+    from specs.hashspec import murmur2_java as spec_murmur2
+    for k_, v_ in [(b'21', -973932308), (b'foobar', -790332482), (b'a-little-bit-long-string', -985981536),
+                   (b'a-little-bit-longer-string', -1486304829),
+                   (b'lkjh234lh9fiuh90y23oiuhsafujhadof229phr9h19h89h8', -58897971), (b'abc', 479470107)]:
+        assert spec_murmur2(k_, 0x9747b28c) == v_ % (1 << 32) == murmur2_java(k_), ('spec murmur2_java', k_)
+
     def one(r, script):
         key = bytes(r.randrange(256) for _ in range(r.choice([0, 1, 2, 3, 4, 5, 7, 8, 13])))
         parts = sorted(r.sample(range(20), r.choice([1, 2, 3, 5])))
